@@ -35,9 +35,19 @@ def init_worker(ctx):
     hops.load()
 
 
-def do_hop(h, ir):
+def do_hop(h, ir, docvariant="strip"):
+    """docvariant: how the docstring hop is configured - 'strip' (defaults in prose, parser told to strip them
+    again), 'keep' (parser keeps the 'Defaults to' sentence: emit_default_doc=True on both sides), 'lib' (both calls
+    with the library's own default arguments)."""
+    if h == "doc_rest_keep":
+        h, docvariant = "doc_rest", "keep"
+    kw = {}
+    if h == "doc_rest" and docvariant == "keep":
+        kw = {"parse_kw": {"emit_default_doc": True}}
+    elif h == "doc_rest" and docvariant == "lib":
+        kw = {"emit_kw": {"emit_default_doc": None}, "parse_kw": {"emit_default_doc": None}}
     with core.quiet():
-        _text, back = hops.hop(h, ir)
+        _text, back = hops.hop(h, ir, **kw)
     back = hops.fix(back)
     return back
 
@@ -111,12 +121,12 @@ def oracle_exhaustive(case):
     has_default = any("default" in p for _n, p in case["params"])
 
     def walk(prefix, ir):
-        for h in FIVE:
+        for h in FIVE + ["doc_rest_keep"]:
             seq = prefix + (h,)
             if seq not in prefixes:
                 continue
             try:
-                nxt = do_hop(h, ir)
+                nxt = do_hop(h, ir, case.get("docvariant", "strip"))
             except Exception as e:
                 r.fail("hop-raises", "%s: %s" % ("->".join(seq), core.exc_bucket(e)))
                 continue
@@ -140,6 +150,7 @@ def oracle_exhaustive(case):
                 r.fail("commute", "%s vs %s give different interfaces" % ("->".join(lst[0][0]), "->".join(seq)))
                 break
     r.label(*gen_ir.labels_of(case))
+    r.label("docvariant:" + case.get("docvariant", "strip"))
     strict = all("default" in p and p["default"] != NoneStr and (literal_members(p["typ"]) is None or len(literal_members(p["typ"])) > 1) for _n, p in case["params"])
     r.label("strict-slice" if strict else "has-relaxable-param")
     r.nontrivial = has_default and len(case["params"]) >= 1
@@ -147,6 +158,10 @@ def oracle_exhaustive(case):
 
 
 def strategy(ctx):
+    return st.builds(lambda c, v: dict(c, docvariant=v), _interfaces(ctx), st.sampled_from(["strip", "keep", "lib"]))
+
+
+def _interfaces(ctx):
     # half of the interfaces come from the strict slice (every param has a non-None default, Literals have >=2 members)
     return st.one_of(
         gen_ir.interface("common", min_params=1, max_params=5, returns=False, min_literal=1),
@@ -191,14 +206,14 @@ def make_machine(ctx):
             self.case = case
             self.cur = gen_ir.to_ir(case)
 
-        @rule(h=st.sampled_from(FIVE))
+        @rule(h=st.sampled_from(FIVE + ["doc_rest_keep"]))
         def hop(self, h):
             if ctx.expired():
                 return
             self.hist.append(h)
             try:
                 with core.watchdog():
-                    self.cur = do_hop(h, self.cur)
+                    self.cur = do_hop(h, self.cur, self.case.get("docvariant", "strip"))
             except core.CaseTimeout:
                 ctx.stats.timeouts += 1
                 return
